@@ -415,3 +415,13 @@ Fixpoint trace_eqb (a b : list obs) : bool :=
 (* the solo run of one program to completion from a given store: its observations *)
 Definition solo_trace (img : image) (S : store) (p : list action) : list obs :=
   result_of 0 (run_schedule img S (repeat 0 (length p)) (init_threads [p])).
+
+(* the footprint of an OBSERVED (resolved) action list, so that premise 1 can be evaluated on what
+   the instrumented dicts saw *)
+Definition raccess (a : raction) : list access :=
+  match a with
+  | RLookup (RShared l m) _ | RContains (RShared l m) _ | RCopy (RShared l m) _ => [(false, (l, m))]
+  | RWrite (RShared l m) _ _ => [(true, (l, m))]
+  | _ => []
+  end.
+Definition rfootprint (l : list raction) : list access := flat_map raccess l.
